@@ -112,7 +112,8 @@ func (c CodecProto) ReadNext(b []byte, r io.Reader, limit int) ([]byte, int, err
 			}
 			n, err := r.Read(b[len(b):cap(b)])
 			b = b[:len(b)+n]
-			if err != nil {
+			if err != nil && !(err == io.EOF && n > 0) {
+				// An io.EOF delivered together with data is reported by the next Read.
 				return b, 0, err
 			}
 		}
@@ -209,7 +210,8 @@ func (c CodecJSON) ReadNext(b []byte, r io.Reader, limit int) ([]byte, int, erro
 			}
 			n, err := r.Read(b[len(b):cap(b)])
 			b = b[:len(b)+n]
-			if err != nil {
+			if err != nil && !(err == io.EOF && n > 0) {
+				// An io.EOF delivered together with data is reported by the next Read.
 				return b, 0, err
 			}
 		}
